@@ -318,6 +318,11 @@ def units(tier, seed, label):
         n1b = len(all_legs(ch, 1 if tier == 'quick' else 2))
         for a in range(0, n1b, 2 if tier == 'quick' else 4):
             us.append(('triples', ch, a, min(n1b, a + (2 if tier == 'quick' else 4)), tier))
+    if label == 'PY' and tier == 'quick':
+        # the pure-Python kernels differ only in LegPipe._init_from_legs and small helpers (compared directly in C04):
+        # all single-leg cases, every fourth pipe unit
+        pipes = [u for u in us if u[0] != 'single']
+        us = [u for u in us if u[0] == 'single'] + pipes[::4]
     return us
 
 
@@ -357,7 +362,7 @@ def run_unit(unit):
         elif kind == 'pairs3':
             first = all_legs(ch, 3)[unit[2]:unit[3]]
             first = [s for s in first if len(s[1]) == 3]
-            partner = [s for s in all_legs(ch, 2) if s[1] in ((1,), (2, 1), (1, 2))][::3]
+            partner = [s for s in all_legs(ch, 2) if s[1] in ((1,), (2, 1), (1, 2))][::(3 if len(WINDOW[ch]) <= 3 or tier != 'quick' else 10)]
             others = [partner]
         else:
             nb = 1 if tier == 'quick' else 2
@@ -371,6 +376,8 @@ def run_unit(unit):
                 opts = [(qc, so, bu) for qc in (1, -1) for so in (True, False) for bu in (True, False)]
                 if kind == 'triples' and tier == 'quick':
                     opts = [(1, True, True), (-1, True, False), (-1, False, True), (1, False, False)]
+                if kind == 'pairs3' and tier == 'quick':
+                    opts = [(1, True, True), (-1, True, True), (-1, True, False), (1, False, True), (1, False, False)]
                 for (qc, so, bu) in opts:
                     ev += 1
                     case = dict(kind='pipe', ch=ch, legs=[[list(map(list, s[0])), list(s[1]), s[2]] for s in specs], qconj=qc, sort=so, bunch=bu)
